@@ -1,5 +1,8 @@
 SPECIFICATION GSpecT
 CONSTANTS
+  STALL = {}
+  LateResponseOK = TRUE
+  STALLOFF = {0}
   REQ = {1, 2, 3}
   T = 100
   ACCEPT = {0, 50}
